@@ -734,6 +734,29 @@ func runC08(r *Run) {
 			}
 		}
 		r.count("tests of `prefix already registered`", m)
+		// at mount time the sub-app's own list is copied into the parent: each entry keeps the app it names
+		nm := 0
+		for _, name := range []string{"(*App).mount", "(*Group).mount"} {
+			mf := r.Fn("", name)
+			for _, in := range instrsWhereOne(mf, func(in ssa.Instruction) bool { _, ok := in.(*ssa.MapUpdate); return ok }) {
+				mu := in.(*ssa.MapUpdate)
+				if !loadOfField(mu.Map, "mountFields.appList") {
+					continue
+				}
+				nm++
+				fromRange := dependsOn(mu.Value, func(v ssa.Value) bool {
+					ex, ok := v.(*ssa.Extract)
+					if !ok {
+						return false
+					}
+					_, isNext := ex.Tuple.(*ssa.Next)
+					return isNext && ex.Index == 2
+				}) != nil
+				r.check(fromRange, fmt.Sprintf("%s:appList-copy#%d:entry-keeps-its-app", name, nm), r.pos(in), "the app registered under a copied prefix is the one the sub-app's list names for it",
+					name+" registers every prefix of the mounted app's list with the same app instead of the one the list names: errors raised in a nested sub-app go to the outer app's handler (or the root's) instead of the nested app's")
+			}
+		}
+		r.atLeast("appList copies at mount time", nm, 2)
 	})
 
 	r.rule("R7", "the mounted handler is chosen the way routes are matched: when registration folds patterns to lower case (unless CaseSensitive), the candidate test folds path and prefix too (E5)", func() {
@@ -767,6 +790,26 @@ func runC08(r *Run) {
 				cs = true
 			}
 		}
+		// … and what is compared with the prefixes is the request path — (Ctx).Path(), which routing used — not a
+		// string that also carries the query or the scheme and host of an absolute-form target
+		fromPath := n > 0
+		withHelpers(func() {
+			for _, c := range callsMatching(f, false, nameIs("strings.HasPrefix")) {
+				isPathCall := func(v ssa.Value) bool {
+					cc, ok := v.(*ssa.Call)
+					return ok && cc.Call.IsInvoke() && cc.Call.Method.Name() == "Path"
+				}
+				isOther := func(v ssa.Value) bool {
+					cc, ok := v.(*ssa.Call)
+					return ok && cc.Call.IsInvoke() && cc.Call.Method.Name() != "Path" && strings.HasSuffix(cc.Call.Value.Type().String(), "fiber/v3.Ctx")
+				}
+				if dependsOn(c.Common.Args[0], isPathCall) == nil || dependsOn(c.Common.Args[0], isOther) != nil {
+					fromPath = false
+				}
+			}
+		})
+		r.check(fromPath, "ErrorHandler:selects-by-request-path", r.fpos(f), "the string the mount prefixes are compared with is (Ctx).Path()",
+			"the mounted error handler is selected by something else than the request path (e.g. OriginalURL, which carries the query string): GET /api?page=2 fails the segment-boundary test after /api and its error goes to the root handler, while GET /api goes to the sub-app's")
 		r.check(n > 0 && okAll && cs, "ErrorHandler:case-folding-like-routing", r.fpos(f), "path and mount prefix are folded (under !CaseSensitive) before they are compared",
 			"routes are matched ignoring letter case unless CaseSensitive is set, but the mounted error handler is chosen by an exact prefix comparison: a request to /API/… runs the sub-app's route and has its error delivered to the root application's handler")
 	})
